@@ -653,6 +653,14 @@ class FaultBatch:
             return [(bytes(r.getrandbits(8) for _ in range(c["n"])), None)], "JUNK", "junk-%s" % c["end"]
         raise KeyError(k)
 
+    def alive_or_raise(self, what):
+        """An end-of-file may be the first sign of a daemon that is just exiting (its sockets close
+        before the process can be reaped).  The listening socket closes before any client socket, so a
+        fresh probe decides without waiting: it fails iff the daemon is going down."""
+        if not self.rig.daemon_alive():
+            raise DaemonDied("daemon died during %s (rc=%s)" % (what, self.rig.daemon.returncode))
+        self.rig.barrier()
+
     # -- connection states -----------------------------------------------------
     def rpc(self, c, data, want, async_sink=None):
         """send a complete well-formed message, wait for its reply -> (type name, body) or (None, None) on EOF"""
@@ -688,8 +696,7 @@ class FaultBatch:
         svc = 0 if st == "S1" else 0x3
         ty, body = self.rpc(c, m.valid("MSG_TYPE_CONNECT_REQ", {"services": svc, "strict": 0}), REPLY["MSG_TYPE_CONNECT_REQ"])
         if ty != "MSG_TYPE_CONNECT_CNF":
-            if not self.rig.daemon_alive():
-                raise DaemonDied("daemon died during a well-formed connect")
+            self.alive_or_raise("a well-formed connect")
             self.v("model:C19:valid-connect-refused", "a well-formed CONNECT_REQ (services 0x%x, strict 0) was answered with %s"
                    % (svc, ty or "end-of-file"))
             raise CaseAbort()
@@ -1315,8 +1322,7 @@ class TokenRun(FaultBatch):
         ty, body = self.rpc(t.conn, data, want, sink)
         self.absorb(t, sink)
         if ty is None:
-            if not self.rig.daemon_alive():
-                raise DaemonDied("daemon died (rc=%s)" % self.rig.daemon.returncode)
+            self.alive_or_raise("a token operation")
             if t.alive:
                 self.L("gone", t)
                 self.out.count("token_clients_dropped_by_daemon")
@@ -1453,8 +1459,7 @@ class TokenRun(FaultBatch):
         ty, body = self.rpc(conn, self.m.valid("MSG_TYPE_CONNECT_REQ", {"services": op.get("svc", 0), "strict": 0}),
                             REPLY["MSG_TYPE_CONNECT_REQ"])
         if ty != "MSG_TYPE_CONNECT_CNF":
-            if not self.rig.daemon_alive():
-                raise DaemonDied("daemon died during a well-formed connect")
+            self.alive_or_raise("a well-formed connect")
             self.v("model:C19:valid-connect-refused", "token client %s: a well-formed CONNECT_REQ (services 0x%x) was answered with %s"
                    % (t.cid, op.get("svc", 0), ty or "end-of-file"))
             conn.close()
